@@ -111,7 +111,10 @@ func (a *kAggregate) Next(ctx context.Context) ([]model.StepVector, error) {
 
 	result := a.vectorPool.GetVectorBatch()
 	for i, vector := range in {
-		a.aggregate(vector.T, &result, int(a.params[i]), vector.SampleIDs, vector.Samples)
+		if !convertibleToInt64(a.params[i]) {
+			return nil, errors.Newf("Scalar value %v overflows int64", a.params[i])
+		}
+		a.aggregate(vector.T, &result, int64(a.params[i]), vector.SampleIDs, vector.Samples)
 		a.next.GetPool().PutStepVector(vector)
 	}
 
@@ -163,17 +166,23 @@ func (a *kAggregate) init(ctx context.Context) error {
 
 // aggregate appends exactly one step vector for step t to result, holding
 // the k selected samples of every group.
-func (a *kAggregate) aggregate(t int64, result *[]model.StepVector, k int, SampleIDs []uint64, samples []float64) {
+func (a *kAggregate) aggregate(t int64, result *[]model.StepVector, k int64, SampleIDs []uint64, samples []float64) {
+	// A k below one selects nothing.
+	if k < 1 {
+		*result = append(*result, a.vectorPool.GetStepVector(t))
+		return
+	}
+
 	for i, sId := range SampleIDs {
 		h := a.inputToHeap[sId]
-		if h.Len() < k || h.compare(h.entries[0].total, samples[i]) || math.IsNaN(h.entries[0].total) {
+		if int64(h.Len()) < k || h.compare(h.entries[0].total, samples[i]) || math.IsNaN(h.entries[0].total) {
 			if k == 1 && h.Len() == 1 {
 				h.entries[0].sId = sId
 				h.entries[0].total = samples[i]
 				continue
 			}
 
-			if h.Len() == k {
+			if int64(h.Len()) == k {
 				heap.Pop(h)
 			}
 
@@ -196,6 +205,18 @@ func (a *kAggregate) aggregate(t int64, result *[]model.StepVector, k int, Sampl
 	}
 	*result = append(*result, s)
 }
+
+// convertibleToInt64 returns true if v does not over-/underflow an int64,
+// like the function of the same name in the Prometheus engine.
+func convertibleToInt64(v float64) bool {
+	return v <= maxInt64 && v >= minInt64
+}
+
+const (
+	// The largest float64 below 1<<63 and the smallest float64 of the int64 range.
+	maxInt64 = 9223372036854774784
+	minInt64 = -9223372036854775808
+)
 
 type entry struct {
 	sId   uint64
